@@ -404,7 +404,7 @@ def race_discipline(tree, rep, rule="C07.R5"):
     run = tree.func(TR, cls, "run")
     def attaches(lp, name):
         return any(isinstance(x, ast.Call) and isinstance(x.func, ast.Attribute) and x.func.attr in ("addCallback", "addCallbacks", "addBoth", "addErrback")
-                   and any(is_self_attr(a, name) for a in x.args) for b in lp.body for x in ast.walk(b))
+                   and any(is_self_attr(a, name) or (isinstance(a, ast.Name) and a.id == name) for a in x.args) for b in lp.body for x in ast.walk(b))
     loops = [lp for lp in ast.walk(run) if isinstance(lp, ast.For)]
     rem = [lp for lp in loops if attaches(lp, "_remove")]
     ok = len(rem) == 1 and all(attaches(rem[0], nm) for nm in ("_succeeded", "_failed", "_maybe_done")) and \
@@ -419,15 +419,22 @@ def r6(tree, rep):
     """the listening port is closed whatever ends the listener contender - an inbound winner (callback) or its cancellation
     by another winner / the deadline (errback): the stop is attached with addBoth"""
     fn = tree.func(TR, "Common", "_get_direct_hints")
-    sites = [c for c in ast.walk(fn) if isinstance(c, ast.Call) and isinstance(c.func, ast.Attribute) and is_self_attr(c.func.value, "_listener_d")
-             and c.func.attr in ("addBoth", "addCallback", "addErrback", "addCallbacks")]
-    def stops(cb):
-        from ..astutil import callback_function
-        f = callback_function(cb, fn, tree.methods(TR, "Common"))
+    from ..astutil import callback_function, enclosing_function
+    cm = tree.methods(TR, "Common")
+    sites = [c for m_ in cm.values() for c in ast.walk(m_) if isinstance(c, ast.Call) and isinstance(c.func, ast.Attribute)
+             and is_self_attr(c.func.value, "_listener_d") and c.func.attr in ("addBoth", "addCallback", "addErrback", "addCallbacks")]
+    def stops(cb, at):
+        f = callback_function(cb, enclosing_function(at), cm)
+        if f is None:
+            # a closure of an outer function
+            outer = enclosing_function(at)
+            while outer is not None and f is None:
+                f = callback_function(cb, outer, cm)
+                outer = enclosing_function(outer)
         return f is not None and any(isinstance(x, ast.Call) and isinstance(x.func, ast.Attribute) and x.func.attr == "stopListening" for x in ast.walk(f))
-    stop_sites = [c for c in sites if c.args and stops(c.args[0])]
+    stop_sites = [c for c in sites if c.args and stops(c.args[0], c)]
     ok = len(stop_sites) == 1 and (stop_sites[0].func.attr == "addBoth" or (
-        stop_sites[0].func.attr == "addCallbacks" and len(stop_sites[0].args) >= 2 and stops(stop_sites[0].args[1])))
+        stop_sites[0].func.attr == "addCallbacks" and len(stop_sites[0].args) >= 2 and stops(stop_sites[0].args[1], stop_sites[0])))
     rep.check("C07.R6", "the listener contender stops listening on success AND on cancellation (addBoth)", ok,
               site(stop_sites[0] if stop_sites else fn, TR), key="C07.R6:listener:stop-on-both",
               what="after connect() finished (another winner, or the deadline) the port keeps listening: a late peer is still accepted, "
